@@ -38,6 +38,9 @@ func newNamer(sml, suffix bool) *namer {
 
 func (nm *namer) draw(t *rapid.T) string {
 	n := rapid.IntRange(1, 7).Draw(t, "nameLen")
+	if rapid.IntRange(0, 39).Draw(t, "longName") == 39 {
+		n = rapid.IntRange(20, 200).Draw(t, "longNameLen") // nothing limits the length of a name
+	}
 	var sb strings.Builder
 	sb.WriteByte(nameFirst[rapid.IntRange(0, len(nameFirst)-1).Draw(t, "c0")])
 	for i := 1; i < n; i++ {
@@ -52,7 +55,11 @@ func (nm *namer) draw(t *rapid.T) string {
 		k := rapid.IntRange(0, 5).Draw(t, "nsuffix")
 		if k >= 4 { // 1 or 2 suffixes with probability 1/3
 			for i := 0; i < k-3; i++ {
-				name += fmt.Sprintf("[%d]", rapid.IntRange(0, 12).Draw(t, "suffix"))
+				if rapid.IntRange(0, 9).Draw(t, "bigSuffix") == 9 {
+					name += "[" + rapid.SampledFrom([]string{"99", "100", "007", "65536", "4294967296", "18446744073709551616"}).Draw(t, "bigSuffixVal") + "]"
+				} else {
+					name += fmt.Sprintf("[%d]", rapid.IntRange(0, 12).Draw(t, "suffix"))
+				}
 			}
 		}
 	}
